@@ -386,6 +386,13 @@ pub fn corpus() -> Vec<(T, T)> {
         (call(19, vec![q(3), q(-10)]), T::nil()),
         (call(19, vec![q(10), q(0)]), T::nil()),
         (call(20, vec![q(-1), q(10)]), T::nil()),
+        // operators computed at run time: the operator atom is a heap atom (substr / concat result), the
+        // reference identifies operators by their bytes
+        (call(2, vec![call(4, vec![call(12, vec![quote(atom(&[0x00, 0x10])), q(1)]), quote(T::list(vec![q(2), q(3)]))]), q(0)]), T::nil()),
+        (call(2, vec![call(4, vec![call(12, vec![quote(atom(&[0xff, 0x12])), q(1)]), quote(T::list(vec![q(2), q(3)]))]), q(0)]), T::nil()),
+        (call(2, vec![call(4, vec![call(12, vec![quote(atom(b"\x0bfoobar")), q(0), q(1)]), quote(T::list(vec![quote(atom(b"abc"))]))]), q(0)]), T::nil()),
+        (call(2, vec![call(4, vec![call(12, vec![quote(atom(&[0x00, 0x01])), q(1)]), q(7)]), q(0)]), T::nil()),
+        (call(2, vec![call(4, vec![call(14, vec![quote(atom(&[0x00])), quote(atom(&[0x10]))]), quote(T::list(vec![q(2), q(3)]))]), q(0)]), T::nil()),
         // Adapter.softforkGuard
         (call(36, vec![q(100)]), T::nil()),
         (call(36, vec![q(0)]), T::nil()),
